@@ -1,5 +1,6 @@
 -- root of the library: everything `./check --setup` builds up front
 import MwVerif.Props.C12
+import MwVerif.Props.C13
 import MwVerif.Props.C14
 import MwVerif.Props.C15
 import MwVerif.Props.C16
